@@ -48,6 +48,13 @@ type History struct {
 // RunHistory executes calls on a fresh instance in dir, observing after every call.
 // after(step index, session) is called after each call's observation (may be nil).
 func RunHistory(dir string, c Cfg, id string, next func() (Call, bool), wantTree bool, after func(i int, s *Session, st *Step)) (*History, error) {
+	return RunHistoryB(dir, c, id, next, wantTree, after, nil)
+}
+
+// RunHistoryB is RunHistory with a hook that runs before every call (with the env lines and
+// call lines of the history so far), used for crash attribution.
+func RunHistoryB(dir string, c Cfg, id string, next func() (Call, bool), wantTree bool, after func(i int, s *Session, st *Step),
+	before func(i int, call Call, sofar []string)) (*History, error) {
 	e, err := NewEnv(dir, c)
 	if err != nil {
 		return nil, err
@@ -114,6 +121,13 @@ func RunHistory(dir string, c Cfg, id string, next func() (Call, bool), wantTree
 			st.Obs = append(st.Obs, e.RootLine(), fmt.Sprintf("blocks\t%d", blocks))
 			hist.Steps = append(hist.Steps, st)
 			continue
+		}
+		if before != nil {
+			sofar := []string{}
+			for _, ps := range hist.Steps {
+				sofar = append(sofar, ps.Env, ps.Call.Line())
+			}
+			before(i, call, sofar)
 		}
 		res := s.Exec(call)
 		st := Step{Call: call, Res: strings.TrimPrefix(strings.SplitN(res+"\t", "\t", 3)[1], "")}
